@@ -116,11 +116,14 @@ BASE = {"no-gitconfig": True, "paging": "never", "detect-dark-light": "never", "
 
 
 class Hostile(Problem):
-    def __init__(self, depth, alphabet, width):
+    def __init__(self, depth, alphabet, width, shard=(0, 1)):
         self.depth = depth
         self.max_depth = depth
         self.alphabet = alphabet
         self.width = width
+        # the first line is taken from this worker's share of the alphabet (the search is
+        # sharded over workers by first line; each shard deduplicates on its own)
+        self.first = alphabet[shard[0]::shard[1]]
 
     def initial(self):
         return (0, ())
@@ -128,7 +131,7 @@ class Hostile(Problem):
     def successors(self, ps):
         if ps >= self.depth:
             return []
-        return [(l, ps + 1, "hostile") for l in self.alphabet]
+        return [(l, ps + 1, "hostile") for l in (self.first if ps == 0 else self.alphabet)]
 
     def step(self, model, line, kind, out, ps):
         return ()
@@ -138,14 +141,17 @@ class Hostile(Problem):
 
     def whole(self, hist, res, ps):
         n_in = sum(len(l) + 1 for l in hist)
-        bound = 64 * (n_in + (self.width + 64) * (len(hist) + 4)) + 4096
+        # every input column may become a row of its own when wrapping is unlimited (a row costs
+        # at most the width plus escape sequences); anything beyond that is runaway output
+        bound = 2 * (n_in + 64) * (self.width + 256) + 65536
         if len(res.out) > bound:
             raise ViolationError("runaway-output", "output of %d bytes for %d input bytes"
                                  % (len(res.out), n_in), observed=len(res.out))
 
 
 def run_hostile(task):
-    label, ov, caller, pty, depth, dedup, deadline = task
+    label, ov, caller, pty, depth, dedup, deadline = task[:7]
+    shard = task[7] if len(task) > 7 else (0, 1)
     opts = dict(BASE)
     opts.update(ov)
     args = build_args(opts)
@@ -168,7 +174,7 @@ def run_hostile(task):
         w = int(opts.get("width") or "80")
     except ValueError:
         w = 80
-    prob = Hostile(depth, HOSTILE, w)
+    prob = Hostile(depth, HOSTILE, w, shard)
     stats, viols = explore.bfs(prob, drv, cid, deadline=deadline, dedup=dedup, batch=128,
                                max_violations=40)
     drv.drop(cid)
@@ -272,7 +278,8 @@ def plan(tier):
                                                            "wrap-max-lines": "unlimited"}),
                           ("syntax=on", {"syntax-theme": "Monokai Extended"}),
                           ("preset=color-only", {"color-only": True})]:
-            hostile.append((label + "/d3", ov, None, None, 3, True))
+            d3 = 2 if "unlimited" in label else 3
+            hostile.append((label + "/d%d" % d3, ov, None, None, d3, True))
     else:
         hostile.append(("default/d5", {}, None, None, 5, True))
         for label, ov, k in deviations(DIMS, 2):
@@ -301,7 +308,7 @@ ASSUMPTIONS = [
     "hostile alphabet of %d lines (list in props/c03.py) and 18 byte classes; arbitrary long binary "
     "input and enormous inputs (memory growth with input size) are not covered" % len(HOSTILE),
     "option values are the listed levels; interactions of three or more option deviations are not covered",
-    "hang = no answer within 30 s for a batch; runaway output = more than 64x(input+width x lines) bytes",
+    "hang = no answer within 30 s for a batch; runaway output = more than 2 x (input bytes + 64) x (width + 256) + 64 KiB",
     "built with overflow checks on and debug assertions off",
 ]
 
@@ -315,7 +322,14 @@ def main(tier):
     cap = 50 if tier == "quick" else 1200
     deadline = t0 + cap
     res_b = explore.pmap(run_bytes, [t + (deadline,) for t in byte_tasks])
-    res_h = explore.pmap(run_hostile, [t + (deadline,) for t in hostile])
+    sharded = []
+    for t in hostile:
+        if t[4] >= 3:
+            sharded.extend(t + (deadline, (i, 8)) for i in range(8))
+        else:
+            sharded.append(t + (deadline,))
+    sharded.sort(key=lambda t: -t[4])
+    res_h = explore.pmap(run_hostile, sharded)
     viols = []
     states = transitions = renders = 0
     snaps = set()
